@@ -92,9 +92,10 @@ class Ctx:
                 "nshards": self.nshards, "case_index": self.case_index, "params": self.params}
 
     def next_case(self) -> bool:
-        """call at the top of every case loop; False => skip (replay of another case)"""
+        """call at the top of every case loop (numbers the cases of a shard; a replay re-runs the whole shard - cases
+        share one seeded random stream, so skipping any would change the others - and then picks its case by index)"""
         self.case_index += 1
-        return self.only_case is None or self.only_case == self.case_index
+        return True
 
     def result(self):
         return {"counters": self.counters, "distinct": sorted(self.distinct), "violations": self.violations,
@@ -181,17 +182,25 @@ def replay(pid, path):
         # re-exec under the recorded hash seed
         os.environ.update(rec.get("env", {}))
         os.execve(sys.executable, [sys.executable, os.path.join(HERE, "check"), pid, "--replay", path], os.environ)
-    res = run_shard(ref["property"], ref["tier"], ref["seed"], ref["shard"], ref["nshards"], None,
-                    ref.get("params"), only_case=ref["case_index"])
-    print(f"replay of {path}: mechanism recorded = {rec['mechanism']}")
-    print(json.dumps(rec["witness"], indent=1, default=str)[:6000])
-    if res["violations"] or res["known"]:
-        for v in res["violations"]:
+    global MAX_WITNESSES_PER_MECH
+    MAX_WITNESSES_PER_MECH = 10 ** 6  # keep every witness of the shard so that the recorded case can be found again
+    res = run_shard(ref["property"], ref["tier"], ref["seed"], ref["shard"], ref["nshards"], None, ref.get("params"))
+    print(f"replay of {path}: mechanism recorded = {rec['mechanism']}; re-running shard {ref['shard']}/{ref['nshards']} "
+          f"(tier {ref['tier']}, seed {ref['seed']}) and looking for case {ref['case_index']}")
+    print(json.dumps(rec["witness"], indent=1, default=str)[:3000])
+    same = [v for v in res["violations"] if v["witness"].get("case_ref", {}).get("case_index") == ref["case_index"]]
+    known_same = [k for k in res["known"] if k["witness"].get("case_ref", {}).get("case_index") == ref["case_index"]]
+    if same or known_same:
+        for v in same:
             print("REPRODUCED violation:", v["mechanism"])
-            print(json.dumps(v["witness"], indent=1, default=str)[:6000])
-        for k in res["known"]:
+            print(json.dumps(v["witness"], indent=1, default=str)[:3000])
+        for k in known_same:
             print("REPRODUCED known finding:", k["kf"])
-        return 1 if res["violations"] else 0
+        return 1 if same else 0
+    other = sorted({v["mechanism"] for v in res["violations"]})
+    if other:
+        print("the recorded case did not fail again; other violations in the same shard:", other[:5])
+        return 1
     print("not reproduced on this tree (status=%s)" % res["status"])
     if res["status"] != "ok":
         print(res["notes"].get("crash", ""))
